@@ -50,9 +50,39 @@ def lazy_iterate_dicts(dict_of_iterables):
 
 
 def generate_combinations(generators_dict):
-    """Yield all combinations of generator values as keyword arguments"""
-    for combination in itertools.product(*generators_dict.values()):
-        yield dict(zip(generators_dict.keys(), combination))
+    """
+    Yield all combinations of generator values as keyword arguments.
+
+    The combinations come in the order of itertools.product, but the generators are consumed on demand: the first
+    one is streamed, the others are pulled while the first pass over them is made and replayed afterwards.
+    """
+    keys = list(generators_dict.keys())
+    sources = [iter(generator) for generator in generators_dict.values()]
+    caches = [[] for _ in keys]
+    exhausted = [False for _ in keys]
+
+    def values_of(level: int):
+        position = 0
+        while True:
+            if position < len(caches[level]):
+                yield caches[level][position]
+                position += 1
+            elif exhausted[level]:
+                return
+            else:
+                try:
+                    caches[level].append(next(sources[level]))
+                except StopIteration:
+                    exhausted[level] = True
+
+    def combine(level: int, chosen: tuple):
+        if level == len(keys):
+            yield dict(zip(keys, chosen))
+            return
+        for value in values_of(level):
+            yield from combine(level + 1, chosen + (value,))
+
+    yield from combine(0, ())
 
 
 def generate_bindings(child_vars_items, sources):
